@@ -3,7 +3,7 @@ import re
 
 from .. import rules
 from ..rules import *  # noqa
-from ..model import X, show, loc
+from ..model import X, show, loc, walk
 from ..cfg import Flow, Slicer
 
 FILEDESC = "sender::filedesc::FileDesc"
@@ -107,9 +107,12 @@ def run(ctx):
     # ---- R3 partition agreement: shared with C07 ---------------------------------------------
     from . import c07
     c07.partition_call_agreement(ctx, ctx.rule("C01.R3", c07.R1_TEXT, "ARG"))
+    c07.partition_polynomials(ctx, prefix="C01.R3")
 
     # ---- R4 metadata flow -----------------------------------------------------------------
     metadata_flow_sender(ctx, ctx.rule("C01.R4s", SENDER_FLOW_TEXT, "ARG/DEP"))
+    decoding_params_provenance(ctx, ctx.rule("C01.R5", DECODING_TEXT, "WWF + value provenance"))
+    from . import c07 as _c07
     metadata_flow_receiver(ctx, ctx.rule("C01.R4r", "receiver: each metadata field of ObjectReceiver assigned in attach_fdt "
                                                     "derives from the FDT File entry, and create_meta hands each one to the writer", "ARG/DEP"))
 
@@ -231,3 +234,60 @@ def metadata_flow_receiver(ctx, rule):
                 rule.violation(key, "ObjectMetadata.%s does not read ObjectReceiver.%s (sources: %s)" % (
                     mf, of, ", ".join(sorted(srcs))[:200]), loc(s.sp))
     rule.floor(len(RECV_FIELDS) + len(META_FIELDS), "receiver metadata fields")
+
+
+DECODING_TEXT = ("the fields that decide how received bytes are decoded are written only from their wire / FDT source: ObjectReceiver.cenc from pkt.cenc "
+                 "(EXT_CENC) or the FDT File entry (Null only for TOI 0 / an absent attribute), .oti from pkt.oti or the FDT, .transfer_length from "
+                 "pkt.transfer_length or the FDT — never a default invented elsewhere")
+
+
+def decoding_params_provenance(ctx, rule):
+    prog = ctx.prog
+    allowed = {
+        "cenc": {OBJRECV + "::set_cenc_from_pkt": [r"^pkt\.cenc$", r"Cenc::Null"], OBJRECV + "::attach_fdt": [r"content_encoding|Cenc::Null"]},
+        "oti": {OBJRECV + "::set_oti_from_pkt": [r"pkt\.oti"], OBJRECV + "::attach_fdt": [r"get_oti_for_file"]},
+        "transfer_length": {OBJRECV + "::set_oti_from_pkt": [r"^pkt\.transfer_length$"], OBJRECV + "::attach_fdt": [r"get_transfer_length"]},
+    }
+    n = 0
+    for fld, fns in sorted(allowed.items()):
+        for a in field_accesses(prog, OBJRECV, fld):
+            if a["func"].derived:
+                continue
+            caller = a["func"].root().path
+            v = a["value"]
+            key = "%s %s ObjectReceiver.%s" % (caller.split("::")[-1], a["kind"], fld)
+            if a["kind"] == "construct":
+                if v is not None and (show(v).startswith("Option::None")):
+                    rule.ok(key, "starts unknown", loc(a["sp"]))
+                else:
+                    rule.violation(key, "object receiver starts with a preset %s: %s" % (fld, show(v, 60)), loc(a["sp"]))
+                continue
+            if a["kind"] == "borrow_mut":
+                rule.violation(key, "mutable borrow of %s" % fld, loc(a["sp"]))
+                continue
+            n += 1
+            if caller not in fns:
+                rule.violation(key, "ObjectReceiver.%s is assigned in %s (value %s): only the packet-extension and FDT paths may set it, a default chosen "
+                                    "elsewhere makes the receiver decode with parameters the sender never announced" % (fld, caller.split("::")[-1], show(v, 60)), loc(a["sp"]))
+                continue
+            sl = Slicer(a["func"].body)
+            ex = sl.expand(v)
+            txt = show(ex, 400)
+            if any(z[0] == "tmp" for z in walk(ex)):
+                # value chosen by a match / if: use the (flow-insensitive) sources of the multi-definition temporary
+                txt += " " + " ".join(sorted(z for z in sl.sources(v) if z.startswith(("var:file", "var:pkt", "aggr:", "call:common::fdtinstance"))))
+            if any(re.search(rx_, txt) for rx_ in fns[caller]):
+                rule.ok(key, txt[:80], loc(a["sp"]))
+            else:
+                rule.violation(key, "value %s does not come from %s" % (txt[:100], fns[caller]), loc(a["sp"]))
+    # the Null default in set_cenc_from_pkt is only for the FDT object
+    f = prog.fn(OBJRECV + "::set_cenc_from_pkt")
+    fl = Flow(f.body)
+    for a in field_accesses(prog, OBJRECV, "cenc", funcs=[f]):
+        if a["kind"] == "assign" and "Cenc::Null" in show(a["value"]):
+            fs = fl.facts_at(a["bb"])
+            if any(ff[0][0] == "eq" and ff[1] and "self.toi" in show(ff[0][1]) + show(ff[0][2]) and "0" in (show(ff[0][1]), show(ff[0][2])) for ff in fs):
+                rule.ok("set_cenc_from_pkt Null default only for TOI 0", "", loc(a["sp"]))
+            else:
+                rule.violation("set_cenc_from_pkt Null default only for TOI 0", "content encoding defaulted to Null for an ordinary object", loc(a["sp"]))
+    rule.floor(6, "assignments of cenc / oti / transfer_length")
